@@ -550,7 +550,9 @@ func MustSep(a, b Tok) bool {
 	if a.Kind == "open" && (fb == '-' || fb == '{' || fb == '%' || fb == '#') {
 		return true
 	}
-	if b.Kind == "close" && (la == '-' || la == '}' || la == '%' || la == '#' || la == '{') {
+	// ('}' directly before "}}" is fine: inside a hash literal the lexer reads
+	// closing braces as hash closes)
+	if b.Kind == "close" && (la == '-' || la == '%' || la == '#' || la == '{') {
 		return true
 	}
 	if la == '#' && fb == '{' || la == '{' && (fb == '{' || fb == '%' || fb == '#') {
